@@ -2,66 +2,124 @@
 (***************************************************************************)
 (* C10: where an Authorization value may travel.                           *)
 (*                                                                         *)
-(* One logical API or storage request of git-lfs (lfsapi.Client.DoWithAuth *)
-(* -> doWithCreds -> lfshttp.DoWithRedirect -> newRequestForRetry) against *)
-(* servers that answer 200, 401 or a redirect to any host.  Hosts are      *)
-(* scheme://host:port identities: "api" (https), "api2" (same host, other  *)
-(* port, https), "other" (https), "plain" (the api host over http).        *)
-(* auth is the host whose credentials the Authorization header carries.    *)
+(* One logical API request of git-lfs, transcribed from                    *)
+(*   lfsapi.Client.DoWithAuth -> doWithAuth -> getCreds -> doWithCreds ->  *)
+(*   lfshttp.DoWithRedirect -> newRequestForRetry -> (nested) doWithAuth   *)
+(* against servers that answer 200, 401 or a redirect to any identity.     *)
+(* Identities are scheme://host:port: "api" (https), "api2" (same host,    *)
+(* other port, https), "other" (other host, https), "plain" (the api host  *)
+(* over http, its own port).  An Authorization value is named after the    *)
+(* identity whose credentials it carries.                                  *)
 (*                                                                         *)
-(* Fixed = TRUE threads the list of visited requests through the retry     *)
-(* path (the repaired code); Fixed = FALSE transcribes the pinned code,    *)
-(* where the hop list is appended to a by-value slice and never grows.     *)
+(* The code keeps a stack of doWithAuth frames, one per request of the     *)
+(* current redirect chain; frames[1] is the caller's request.  A 401       *)
+(* anywhere in the chain unwinds all frames (each rejects the credentials  *)
+(* it filled and strips them from its request), upgrades the access mode,  *)
+(* and - when the caller's request is left without Authorization - starts  *)
+(* the whole chain again from the caller's request with an empty via list  *)
+(* ("do not count this against our redirection maximum").  Credentials     *)
+(* that are not multistage do not consume the attempt counter, so the      *)
+(* number of restarts is bounded only by the credential source; here, by   *)
+(* the number of 401 answers the servers give.                             *)
+(*                                                                         *)
+(* Fixed = TRUE threads the list of visited requests through the nested    *)
+(* frames (the repaired code); Fixed = FALSE transcribes the pinned code,  *)
+(* where the via list is appended to by value and the hop limit never      *)
+(* triggers.                                                               *)
 (***************************************************************************)
 EXTENDS Integers, Sequences, FiniteSets, TLC, Json, CSV, IOUtils
 
-CONSTANTS Hosts, MaxPerHost, MaxHops, MaxAuth, Fixed, Emit, CredSources
+CONSTANTS Hosts, MaxPerHost, MaxHops, Fixed, Emit, CredSources, Cut
 
 Scheme(h) == IF h = "plain" THEN "http" ELSE "https"
 Answers == {<<"ok", "-">>, <<"unauth", "-">>} \cup {<<"redir", t>> : t \in Hosts}
 
-VARIABLES pc, host, auth, hops, attempts, sawHttps, log, script, mode, source, result
-vars == <<pc, host, auth, hops, attempts, sawHttps, log, script, mode, source, result>>
-View == <<pc, host, auth, hops, attempts, sawHttps, mode, source, result, [h \in Hosts |-> Len(script[h])]>>
+VARIABLES pc, host, hdr, hops, access, origHdr, frames, sawHttps, log, hlog, script, mode, source, result
+vars == <<pc, host, hdr, hops, access, origHdr, frames, sawHttps, log, hlog, script, mode, source, result>>
+View == <<pc, host, hdr, hops, access, origHdr, frames, sawHttps, script, mode, source, result>>
 
-Init == /\ pc = "send" /\ host = "api" /\ hops = 0 /\ attempts = 0 /\ sawHttps = FALSE
-        /\ log = <<>> /\ script = [h \in Hosts |-> <<>>] /\ result = "none"
-        /\ mode \in {"none", "basic"} /\ source \in CredSources
-        \* basic access: credentials for the API host are attached up front (from the helper or the URL)
-        /\ auth = IF mode = "basic" THEN "api" ELSE "none"
+Init == /\ pc = "start" /\ host = "api" /\ hdr = "none" /\ hops = 0 /\ origHdr = "none"
+        /\ frames = <<>> /\ sawHttps = FALSE /\ log = <<>> /\ hlog = <<>> /\ script = [h \in Hosts |-> <<>>] /\ result = "none"
+        /\ mode \in {"none", "basic"} /\ source \in CredSources /\ access = mode
 
+\* getCreds: <<Authorization the request leaves with, TRUE iff the credential helper was asked>>
+GetCreds(h, carried, acc) ==
+  IF carried # "none" THEN <<carried, FALSE>>                 \* requestHasAuth
+  ELSE IF acc = "none" THEN <<"none", FALSE>>                 \* public access: nobody is asked
+  ELSE IF h # "api" THEN <<h, TRUE>>                          \* request not for the API identity: helper asked for the request URL
+  ELSE IF source = "urluser" THEN <<"api", FALSE>>            \* userinfo of the configured URL
+  ELSE <<"api", TRUE>>
+Fill(h, g) == IF g[2] THEN Append(hlog, <<"fill", h>>) ELSE hlog
+
+\* DoWithAuth: (re)start the chain with the caller's request
+Start == /\ pc = "start"
+         /\ LET g == GetCreds("api", origHdr, access) IN
+            /\ host' = "api" /\ hops' = 0 /\ hdr' = g[1] /\ origHdr' = g[1]
+            /\ frames' = << [host |-> "api", creds |-> g[2]] >>
+            /\ hlog' = Fill("api", g)
+         /\ pc' = "send" /\ sawHttps' = FALSE
+         /\ UNCHANGED <<access, log, script, mode, source, result>>
+
+\* net/http itself adds Basic credentials from the userinfo of the URL it is given: the caller's
+\* request (hop 0) always goes to the configured URL, a Location never carries userinfo here
+Wire == IF hdr = "none" /\ source = "urluser" /\ hops = 0 THEN "api" ELSE hdr
 Send == /\ pc = "send" /\ pc' = "wait"
-        /\ log' = Append(log, [host |-> host, auth |-> auth, scheme |-> Scheme(host)])
+        /\ log' = Append(log, [host |-> host, auth |-> Wire, scheme |-> Scheme(host), hop |-> hops, afterHttps |-> sawHttps])
         /\ sawHttps' = (sawHttps \/ Scheme(host) = "https")
-        /\ UNCHANGED <<host, auth, hops, attempts, script, mode, source, result>>
+        /\ UNCHANGED <<host, hdr, hops, access, origHdr, frames, hlog, script, mode, source, result>>
 
-Finish(r) == pc' = "done" /\ result' = r /\ UNCHANGED <<host, auth, hops, attempts>>
+\* helper calls made while the frames unwind, innermost first
+Unwind(what) == LET n == Len(frames)
+                    idx == [i \in 1..n |-> n + 1 - i]
+                    F(i) == frames[idx[i]]
+                IN SelectSeq([i \in 1..n |-> IF F(i).creds THEN <<what, F(i).host>> ELSE <<"-", "-">>], LAMBDA e : e[1] # "-")
+
+Finish(r) == pc' = "done" /\ result' = r /\ UNCHANGED <<host, hdr, hops, origHdr, frames>>
+
+\* the answer the server gives: scripted while the script has room; afterwards a
+\* redirecting identity keeps redirecting and every other one answers 200
+Implicit(h) == IF script[h] # <<>> /\ script[h][Len(script[h])][1] = "redir" /\ Len(log) < Cut
+                 THEN script[h][Len(script[h])] ELSE <<"ok", "-">>
 
 Respond(a) ==
-  /\ pc = "wait" /\ a \in Answers /\ Len(script[host]) < MaxPerHost
-  /\ script' = [script EXCEPT ![host] = Append(@, a)]
-  /\ IF a[1] = "ok" THEN Finish("ok")
+  /\ pc = "wait" /\ a \in Answers
+  /\ IF Len(script[host]) < MaxPerHost /\ Len(log) < Cut
+       THEN script' = [script EXCEPT ![host] = Append(@, a)]
+       ELSE a = Implicit(host) /\ script' = script
+  /\ UNCHANGED <<log, mode, source, sawHttps>>
+  /\ IF a[1] = "ok" THEN
+        /\ hlog' = hlog \o Unwind("approve") /\ access' = access /\ Finish("ok")
      ELSE IF a[1] = "unauth" THEN
-        IF attempts < MaxAuth
-          THEN /\ attempts' = attempts + 1 /\ auth' = host      \* credentials are looked up for the host that challenged
-               /\ pc' = "send" /\ UNCHANGED <<host, hops, result>>
-          ELSE Finish("too many authentication attempts")
+        /\ hlog' = hlog \o Unwind("reject")
+        /\ access' = "basic"                                    \* Lfs-Authenticate: Basic
+        /\ LET left == IF frames[1].creds THEN "none" ELSE origHdr IN
+           IF left # "none"
+             THEN Finish("auth error")                          \* the caller's request keeps an Authorization nobody can replace
+             ELSE /\ pc' = "start" /\ origHdr' = "none"
+                  /\ UNCHANGED <<host, hdr, hops, frames, result>>
      ELSE LET t == a[2] IN
-        IF Scheme(host) = "https" /\ Scheme(t) = "http" THEN Finish("refused insecure redirect")
-        ELSE IF Fixed /\ hops + 1 >= MaxHops THEN Finish("too many redirects")
-        ELSE /\ host' = t /\ hops' = hops + 1
-             /\ auth' = IF t = host THEN auth ELSE "none"         \* Authorization only survives a same-host redirect
-             /\ pc' = "send" /\ UNCHANGED <<attempts, result>>
-  /\ UNCHANGED <<sawHttps, log, mode, source>>
+        /\ access' = access
+        /\ IF Fixed /\ hops + 1 >= MaxHops THEN hlog' = hlog /\ Finish("too many redirects")
+           ELSE IF Scheme(host) = "https" /\ Scheme(t) = "http" THEN hlog' = hlog /\ Finish("refused insecure redirect")
+           ELSE LET carried == IF t = host THEN hdr ELSE "none"    \* Authorization only survives a same host:port redirect
+                    g == GetCreds(t, carried, access)
+                IN /\ host' = t /\ hops' = hops + 1 /\ hdr' = g[1]
+                   /\ frames' = Append(frames, [host |-> t, creds |-> g[2]])
+                   /\ hlog' = Fill(t, g)
+                   /\ pc' = "send" /\ UNCHANGED <<origHdr, result>>
 
-Next == Send \/ \E a \in Answers : Respond(a)
+Next == Start \/ Send \/ \E a \in Answers : Respond(a)
 Spec == Init /\ [][Next]_vars
 
 \* ---- C10 -------------------------------------------------------------------
 Confined     == \A i \in DOMAIN log : log[i].auth \in {"none", log[i].host}
-NoDowngrade  == \A i, j \in DOMAIN log : (i < j /\ log[i].scheme = "https") => log[j].scheme = "https"
-ChainBounded == Len(log) <= 1 + MaxHops + MaxAuth
+NoDowngrade  == \A i \in DOMAIN log : log[i].scheme = "http" => ~log[i].afterHttps
+ChainBounded == hops < MaxHops
+\* approve / reject only name identities the helper was asked about
+HelperSound  == \A i \in DOMAIN hlog : hlog[i][1] \in {"approve", "reject"} =>
+                   \E j \in 1..(i - 1) : hlog[j] = <<"fill", hlog[i][2]>>
 
-Script == [mode |-> mode, source |-> source, answers |-> script', requests |-> Len(log)]
+Script == [mode |-> mode, source |-> source, answers |-> script',
+           reqs |-> [i \in DOMAIN log |-> <<log[i].host, log[i].auth>>], helper |-> hlog', result |-> result']
 EmitEdge == (Emit /\ pc' = "done" /\ pc # "done") => CSVWrite("%1$s", <<ToJson(Script)>>, IOEnv.OUT)
 =============================================================================
